@@ -32,9 +32,9 @@ theorem declF_inv {B : List String} {tok : Nat}
     exact .inr ⟨_, _, _, rfl, by simpa using h.1, by simpa using h.2⟩
   · cases h
 
-theorem condF_split {B : List String} {c : Expr} (h : condF B c = true) (ht : ¬ isTrueLit c = true) :
-    ExprF (bnd B) c = true ∧ isBoolLit c = false := by
-  have h2 : (ExprF (bnd B) c && !isBoolLit c) = true := by simpa [condF, ht] using h
+theorem condF_split {B : List String} {c : Expr} (h : condF B c = true) (ht : ¬ isTrueLit c = true)
+    (hf : ¬ isFalseLit c = true) : ExprF (bnd B) c = true ∧ isBoolLit c = false := by
+  have h2 : (ExprF (bnd B) c && !isBoolLit c) = true := by simpa [condF, ht, hf] using h
   simpa [Bool.and_eq_true] using h2
 
 theorem step_stmts {F : FloatOps} {n : Nat} (ih : AllS F n) : ∀ ss, sizeOf ss < n + 1 → ∀ B, StmtsF B ss = true →
@@ -54,8 +54,11 @@ theorem step_if {F : FloatOps} {n : Nat} (ih : AllS F n) (B : List String) (pos 
   by_cases ht : isTrueLit c = true
   · obtain ⟨p, rfl⟩ := isTrueLit_inv ht
     exact (good_ifTrueStmt F B pos bp p body none _ hT).mono (Nat.le_max_right _ _)
-  · obtain ⟨h1, h2⟩ := condF_split hc ht
-    exact good_ifStmt F B pos bp c body h1 h2 _ hT
+  · by_cases hf : isFalseLit c = true
+    · obtain ⟨p, rfl⟩ := isFalseLit_inv hf
+      exact (good_ifFalseStmt F B pos bp p body).mono (Nat.zero_le _)
+    · obtain ⟨h1, h2⟩ := condF_split hc ht hf
+      exact good_ifStmt F B pos bp c body h1 h2 _ hT
 
 theorem step_ifElse {F : FloatOps} {n : Nat} (ih : AllS F n) (B : List String) (pos bp : Pos) (c : Expr) (body : List Stmt)
     (e : Stmt) (hsz : sizeOf body < n) (hsze : sizeOf e < n) (hc : condF B c = true)
@@ -67,8 +70,12 @@ theorem step_ifElse {F : FloatOps} {n : Nat} (ih : AllS F n) (B : List String) (
   · obtain ⟨p, rfl⟩ := isTrueLit_inv ht
     exact (good_ifTrueStmt F B pos bp p body (some e) _ hT).mono
       (Nat.le_trans (Nat.le_max_left _ _) (Nat.le_max_right _ _))
-  · obtain ⟨h1, h2⟩ := condF_split hc ht
-    exact good_ifElseStmt F B pos bp c body e h1 h2 _ _ hT (ih.els e hsze B he)
+  · by_cases hf : isFalseLit c = true
+    · obtain ⟨p, rfl⟩ := isFalseLit_inv hf
+      exact (good_ifFalseElseStmt F B pos bp p body e _ (ih.els e hsze B he)).mono
+        (Nat.le_trans (Nat.le_max_right _ _) (Nat.le_max_right _ _))
+    · obtain ⟨h1, h2⟩ := condF_split hc ht hf
+      exact good_ifElseStmt F B pos bp c body e h1 h2 _ _ hT (ih.els e hsze B he)
 
 theorem step_else {F : FloatOps} {n : Nat} (ih : AllS F n) (e : Stmt) (hsz : sizeOf e < n + 1) (B : List String)
     (h : ElseF B e = true) : GoodB F B (needS e) (compileStmt e) (fun fuel env => Sem.execStmt F fuel env e) := by
